@@ -391,7 +391,9 @@ func c10ExecQuery(f []string) string {
 			eval = b.String()
 		}
 	}
-	return fmt.Sprintf("%s res=%s typed=%s eval=%s", front, res, typed, eval)
+	// the same call with the process-wide debug configuration switched on (ast.EnableQueryDebug, debug log level)
+	cfg := c10ParseUnderDebug(newC10Syms(schema, &c10Row{}, seek), text, le)
+	return fmt.Sprintf("%s res=%s typed=%s eval=%s cfg=%s", front, res, typed, eval, cfg)
 }
 
 // ------------------------------------------------------------------------------------ generator
